@@ -126,6 +126,31 @@ def timestamp_roundtrip(tier, seed):
             'samples': vals[10:13], 'violations': bad[:3], 'bound': '%d instants' % len(vals)}
 
 
+def timestamp_encode_exact(tier, seed):
+    """timestamp (DateType.serialize) of a datetime with MICROSECOND precision: the encoded value is the instant's whole milliseconds (sub-millisecond digits
+    dropped toward zero), never the next millisecond - for naive and aware datetimes over years 1..9999 (the float sum used to round .xxx999 up far from 1970)."""
+    import datetime
+    from cassandra import cqltypes, marshal
+    rng = _rng(seed)
+    epoch = datetime.datetime(1970, 1, 1)
+    lo, hi = -62135596800 * 10 ** 6 + 2 * 86400 * 10 ** 6, 253402300799 * 10 ** 6 - 2 * 86400 * 10 ** 6
+    n = 4000 if tier == 'quick' else 200000
+    vals = [rng.randrange(lo, hi) for _ in range(n)]
+    vals += [v - v % 1000 + 999 for v in vals[:n // 2]] + [0, 999, -1, -999, -1000, -1001, 130389858555570999]
+    tz = datetime.timezone(datetime.timedelta(hours=-4, minutes=-30))
+    bad = []
+    for us in vals:
+        dt = epoch + datetime.timedelta(microseconds=us)
+        want = us // 1000 if us >= 0 else -(-us // 1000)
+        for v in (dt, dt.replace(tzinfo=datetime.timezone.utc).astimezone(tz)):
+            got = marshal.int64_unpack(cqltypes.DateType.serialize(v, 4))
+            if got != want:
+                bad.append({'datetime': str(v), 'encoded_ms': got, 'expected_ms': want})
+    return {'name': 'timestamp_encode_exact', 'evaluations': 2 * len(vals), 'distinct_nontrivial': len(set(vals)),
+            'rule': 'DateType.serialize(datetime) == whole milliseconds of the instant, microsecond-precision datetimes uniformly over years 1..9999, half of them ending in 999 microseconds, naive and aware',
+            'samples': vals[:3], 'violations': bad[:3], 'bound': '%d instants x 2 zone forms' % len(vals)}
+
+
 def inet_roundtrip(tier, seed):
     from cassandra import cqltypes
     import ipaddress
